@@ -22,11 +22,18 @@ MARK_META = {"ovni": {"mark": {"0": {"title": "replay id", "chan_type": "single"
 
 def gen_case(chk, i):
     rng = chk.rng(i)
-    nlooms = rng.choice([1, 1, 2, 3])
+    nlooms = rng.choice([1, 1, 2, 3, 4])
+    # several looms may live on one host (same hostname = name up to the first
+    # dot): the offset of a host applies to all of them
+    nhosts = rng.randint(1, nlooms)
+    hostoff = [0 if (h == 0 and rng.random() < 0.5) else rng.randint(-400000, 400000) for h in range(nhosts)]
     looms = []
     for l in range(nlooms):
-        off = 0 if (l == 0 and rng.random() < 0.5) else rng.randint(-400000, 400000)
-        looms.append({"name": "h%d.%s" % (l, rng.choice(["a", "node", "x.y"])), "host": "h%d" % l, "off": off})
+        h = l % nhosts
+        looms.append({"name": "h%d.%s%d" % (h, rng.choice(["a", "node", "x.y"]), l), "host": "h%d" % h, "off": hostoff[h]})
+    # ranks on every process (looms then sort by minimum rank, not by name),
+    # placed cyclically over the looms
+    with_ranks = rng.random() < 0.4
     nstreams = rng.randint(1, 12)
     # spans beyond 2^31 and 2^32 ns matter: anything that narrows the 64-bit
     # clock difference only misbehaves when stream heads are seconds apart
@@ -52,6 +59,23 @@ def gen_case(chk, i):
         evs.append([cl[-1] - off, "OHe", "", 0])
         streams.append({"loom": lm, "pid": 10 + (s % 3) + 10 * lm, "tid": tid, "events": evs})
         tid += rng.choice([1, 1, 7])
+    if with_ranks:
+        procs = sorted(set((s["loom"], s["pid"]) for s in streams), key=lambda x: (x[1] % 3, x[0]))
+        order = sorted(range(len(procs)), key=lambda k: (k % nlooms, k))
+        rank = {}
+        r = 0
+        # cyclic placement: rank 0 on loom 0, rank 1 on loom 1, ...
+        byloom = {}
+        for lp in procs:
+            byloom.setdefault(lp[0], []).append(lp)
+        k = 0
+        while any(byloom.values()):
+            for lm in sorted(byloom):
+                if byloom[lm]:
+                    rank[byloom[lm].pop(0)] = r; r += 1
+        for s in streams:
+            s["rank"] = rank[(s["loom"], s["pid"])]
+            s["nranks"] = r
     rng.shuffle(streams)   # creation order on disk
     return {"case": i, "looms": looms, "streams": streams, "table": rng.choice(["file", "-c", "file"]),
             "empty_stream": rng.random() < 0.3}
@@ -64,7 +88,7 @@ def write_case(case, d, order=None, with_empty=False):
         s = case["streams"][k]
         lm = case["looms"][s["loom"]]
         meta = obs.thread_meta(s["tid"], s["pid"], lm["name"], app_id=1 + s["pid"] % 5,
-                               cpus=[(0, 0)], extra=MARK_META)
+                               cpus=[(0, 0)], extra=MARK_META, rank=s.get("rank"), nranks=s.get("nranks"))
         evs = [(c, m, bytes.fromhex(p)) for (c, m, p, _) in s["events"]]
         obs.write_stream(d, lm["name"], s["pid"], s["tid"], meta, evs)
     if with_empty:
@@ -72,9 +96,11 @@ def write_case(case, d, order=None, with_empty=False):
         obs.write_stream(d, lm["name"], 10, 999999, obs.thread_meta(999999, 10, lm["name"], cpus=[(0, 0)]), [])
     os.makedirs(os.path.join(d, "cfg"), exist_ok=True)
     lines = ["offset table"]
+    seen_hosts = set()
     for k, lm in enumerate(case["looms"]):
         used = any(s["loom"] == k for s in case["streams"])
-        if lm["off"] != 0 and used:
+        if lm["off"] != 0 and used and lm["host"] not in seen_hosts:
+            seen_hosts.add(lm["host"])
             lines.append("%d %s %d %d 0.0" % (k, lm["host"], lm["off"], lm["off"]))
     args = []
     if len(lines) > 1:
